@@ -174,6 +174,22 @@ def dipoleMap (p : DipoleP α) (energy mc2 : α) : Mat7 α :=
   let R := Mat7.mul Rexit (Mat7.mul R Renter)
   Mat7.mul (rotationMatrix (-p.tilt)) (Mat7.mul R (rotationMatrix p.tilt))
 
+/-- the body of `Dipole.transfer_map` as the code computes it (since the per-entry `fix:`): always `base_rmatrix`, then
+`R[..., 1, 6] = torch.where(length == 0, angle, R[..., 1, 6])` -/
+def dipoleBodyCode (p : DipoleP α) (energy mc2 : α) : Mat7 α :=
+  let R := baseR0 p.L p.k1 (dipoleHx p.L p.angle) energy mc2
+  R.set 1 6 (if eqb p.L 0.0 then p.angle else R.get 1 6)
+
+/-- `Dipole.transfer_map` operation by operation (the driver runs this form; `dipoleMap` is its reading with the
+zero-length body written as the thin corrector, proved equal in `Proofs/DipoleCode.lean`) -/
+def dipoleMapCode (p : DipoleP α) (energy mc2 : α) : Mat7 α :=
+  let hx := dipoleHx p.L p.angle
+  let Renter := dipoleEdge hx p.e1 p.fint p.gap
+  let Rexit := dipoleEdge hx p.e2 p.fintx p.gap
+  let R := dipoleBodyCode p energy mc2
+  let R := Mat7.mul Rexit (Mat7.mul R Renter)
+  Mat7.mul (rotationMatrix (-p.tilt)) (Mat7.mul R (rotationMatrix p.tilt))
+
 /-- `RBend(...)` is `Dipole(..., dipole_e = rbend_e + angle/2)` -/
 def rbendToDipole (p : DipoleP α) : DipoleP α :=
   { p with e1 := p.e1 + p.angle / 2.0, e2 := p.e2 + p.angle / 2.0 }
